@@ -352,5 +352,10 @@ func c01(args []string) int {
 		fmt.Println("url e2e:", err)
 		return 2
 	}
+	run.Sum.Rule += " || http1 message part: generated requests (GET/POST/PUT/HEAD/DELETE/OPTIONS/PATCH; 0-9 ordinary fields from a pool with repeated names on separate lines, Cookie on several lines, values that are empty / quoted / contain ';' without spaces / double spaces / non-ASCII; User-Agent, Content-Type, Connection variants incl. close and repeated; mixed-case names and random optional white space on the wire; Expect: 100-continue; no body / Content-Length / chunked bodies of 0, 1, 15-17, 255-257, ~300 and up to 70000 bytes, binary or text) and generated responses (200/201/204/206/304/404/500; repeated Set-Cookie, Via, Vary...; Date, Server, Content-Encoding, keep-alive; Content-Length / chunked / close-delimited; HEAD) through the REAL HTTP/1 proxy listener between a raw client and a raw recording upstream; every forwarded message is parsed from the raw bytes and compared with Model/RelayHttp.v (field order included) and by the finder (per name: values, multiplicity and relative order; body bytes). Non-trivial: at least four fields in request + response."
+	if err := http1Part(run, e); err != nil {
+		fmt.Println("http1:", err)
+		return 2
+	}
 	return run.Finish()
 }
